@@ -123,6 +123,9 @@ func ExtLen(t *rapid.T, aligned bool) int {
 		return 0
 	}
 	n := rapid.IntRange(1, 40).Draw(t, "extlen")
+	if ln, ok := nearWords(t, 1, 32, "ext"); ok {
+		n = ln // a kilobyte or more of profile extension: the packet length crosses 256, 512, 1024 words
+	}
 	if aligned {
 		n = (n + 3) / 4 * 4
 	}
@@ -209,6 +212,9 @@ func SLI(t *rapid.T) *m.SLI {
 
 func FIR(t *rapid.T) *m.FIR {
 	n := Len(t, 1, 40, "nfir")
+	if ln, ok := nearWords(t, 8, 12, "fir"); ok && ln > 0 {
+		n = ln
+	}
 	out := &m.FIR{Sender: U32(t, "sender"), Media: U32(t, "media")}
 	for i := 0; i < n; i++ {
 		out.Entries = append(out.Entries, m.FIREntry{SSRC: U32(t, "fir.ssrc"), Seq: U8(t, "fir.seq")})
@@ -265,6 +271,9 @@ func CCFB(t *rapid.T) *m.CCFB {
 			nm = rapid.IntRange(16380, 16384).Draw(t, "nmetrics")
 		case 1, 2:
 			nm = rapid.IntRange(0, 300).Draw(t, "nmetrics")
+			if ln, ok := nearWords(t, 2, 20, "metrics"); ok {
+				nm = ln
+			}
 		default:
 			nm = rapid.IntRange(0, 9).Draw(t, "nmetrics")
 		}
@@ -276,6 +285,23 @@ func CCFB(t *rapid.T) *m.CCFB {
 	return out
 }
 
+// nearWords decides whether a variable-length part is made long: one time in sixteen its element
+// count is chosen so that the enclosing 16-bit length field (in words, minus one: an XR block
+// length, a packet length) lands at or next to 255/256, 511/512 or 1023/1024 - where an 8-bit or
+// otherwise narrowed length shows. unit and fixed are the octets per element and of the fixed
+// part (header included).
+func nearWords(t *rapid.T, unit, fixed int, label string) (int, bool) {
+	if rapid.IntRange(0, 15).Draw(t, label+".long?") != 0 {
+		return 0, false
+	}
+	words := rapid.SampledFrom([]int{254, 255, 256, 257, 258, 511, 512, 513, 1023, 1024, 1025}).Draw(t, label+".words")
+	n := (4*(words+1) - fixed) / unit
+	if n < 0 {
+		n = 0
+	}
+	return n, true
+}
+
 func XRBlock(t *rapid.T, bt int) m.XRBlock {
 	if bt < 0 {
 		bt = rapid.IntRange(0, 8).Draw(t, "bt")
@@ -284,6 +310,9 @@ func XRBlock(t *rapid.T, bt int) m.XRBlock {
 	case m.XRLossRLE, m.XRDupRLE:
 		b := m.XRBlock{BT: uint8(bt), T: uint8(Bits(t, 4, "T")), SSRC: U32(t, "ssrc"), BeginSeq: Seq(t, "begin"), EndSeq: Seq(t, "end")}
 		n := 2 * rapid.IntRange(0, 5).Draw(t, "nchunkpairs")
+		if ln, ok := nearWords(t, 2, 12, "chunks"); ok {
+			n = ln &^ 1
+		}
 		for i := 0; i < n; i++ {
 			b.Chunks = append(b.Chunks, U16(t, "chunk"))
 		}
@@ -291,6 +320,9 @@ func XRBlock(t *rapid.T, bt int) m.XRBlock {
 	case m.XRPRT:
 		b := m.XRBlock{BT: uint8(bt), T: uint8(Bits(t, 4, "T")), SSRC: U32(t, "ssrc"), BeginSeq: Seq(t, "begin"), EndSeq: Seq(t, "end")}
 		n := rapid.IntRange(0, 6).Draw(t, "ntimes")
+		if ln, ok := nearWords(t, 4, 12, "times"); ok {
+			n = ln
+		}
 		for i := 0; i < n; i++ {
 			b.Times = append(b.Times, U32(t, "time"))
 		}
@@ -300,6 +332,9 @@ func XRBlock(t *rapid.T, bt int) m.XRBlock {
 	case m.XRDLRR:
 		b := m.XRBlock{BT: m.XRDLRR}
 		n := rapid.IntRange(0, 5).Draw(t, "nsubs")
+		if ln, ok := nearWords(t, 12, 4, "subs"); ok {
+			n = ln
+		}
 		for i := 0; i < n; i++ {
 			b.Subs = append(b.Subs, m.DLRRSub{SSRC: U32(t, "ssrc"), LastRR: U32(t, "lrr"), DLRR: U32(t, "dlrr")})
 		}
@@ -320,6 +355,9 @@ func XRBlock(t *rapid.T, bt int) m.XRBlock {
 		ubt = rapid.Uint8Range(8, 255).Draw(t, "ubt")
 	}
 	n := 4 * rapid.IntRange(0, 4).Draw(t, "bodywords")
+	if ln, ok := nearWords(t, 4, 4, "body"); ok {
+		n = 4 * ln
+	}
 	return m.XRBlock{BT: ubt, TypeSpecific: U8(t, "ts"), Body: BytesN(t, n, "body")}
 }
 
